@@ -81,6 +81,10 @@ impl<'a> IndexPlanner<'a> {
             if matches!(operation, Some(CompareOp::In)) {
                 return IndexStrategy::FullScan;
             }
+            // `!=` keeps every zone but those holding nothing else: no temporal index narrows it.
+            if matches!(operation, Some(CompareOp::Neq)) {
+                return IndexStrategy::FullScan;
+            }
             if matches!(operation, Some(CompareOp::Eq)) {
                 return IndexStrategy::TemporalEq { field };
             } else {
@@ -111,12 +115,16 @@ impl<'a> IndexPlanner<'a> {
             }
         }
 
-        // Equality
-        if kinds.contains(IndexKind::ZONE_XOR_INDEX) {
-            return IndexStrategy::ZoneXorIndex { field };
-        }
-        if kinds.contains(IndexKind::XOR_FIELD_FILTER) {
-            return IndexStrategy::XorPresence { field };
+        // Equality: the XOR filters answer "may contain this value" and nothing else, so they
+        // are only usable for `=`. Any other operator that reached this point (`!=`, or a range
+        // on a field without a SuRF) must scan and let the condition evaluator decide.
+        if matches!(operation, None | Some(CompareOp::Eq)) {
+            if kinds.contains(IndexKind::ZONE_XOR_INDEX) {
+                return IndexStrategy::ZoneXorIndex { field };
+            }
+            if kinds.contains(IndexKind::XOR_FIELD_FILTER) {
+                return IndexStrategy::XorPresence { field };
+            }
         }
 
         IndexStrategy::FullScan
